@@ -534,6 +534,7 @@ func checkC19(p *Prog, res *Result, tier string) {
 	res.rule("C19-R1", "guarded fields are accessed with their guard held (exclusive for writes)", 40)
 	res.rule("C19-R2", "no slice window of a guarded array escapes the critical section", 1)
 	res.rule("C19-R3", "skip-list / list elements are dereferenced only under the owning lock", 4)
+	res.rule("C19-R6", "event batches shared between subscriber goroutines are not written by any of them (C05-R8)", 2)
 	res.rule("C19-R5", "no self-deadlock: a mutex is never (re)acquired exclusively on a path on which the same goroutine already holds it, directly or through a called repo function", 1)
 	res.rule("C19-R4", "post-construction writes to fields of mutex-less types are atomic or confined (frozen table)", 5)
 
@@ -729,6 +730,17 @@ func checkC19(p *Prog, res *Result, tier string) {
 	checkUnguardedTypes(p, res, inOwner)
 	// ---- R5: self-deadlock ----
 	checkSelfDeadlock(p, p.lockContext(), res, "C19-R5")
+
+	// ---- R6: shared batches are read-only (C05-R8) ----
+	{
+		sub5 := newResult("C05")
+		checkC05(p, sub5, tier)
+		for _, o := range sub5.Obls {
+			if o.Rule == "C05-R8" {
+				res.add("C19-R6", o.Rule+" "+o.Construct, o.Status, o.Pos, o.Detail)
+			}
+		}
+	}
 
 }
 
